@@ -5,15 +5,18 @@
    invariant PinnedOK, which is expected to fail; the emitted cases carry the model's verdict
    so the driver can compare it with what the real completer + reader do.               *)
 EXTENDS Complete, Json
-CONSTANTS MaxLen, Mode
+CONSTANTS MaxLen, Mode, Alphabet
 NameAlphabet == {"a", " ", "'", "\"", "$", "*", "{", "}", ",", "~", "#", "|", "&", ";", "\\", "(", "U", "`", "!", ">", "=", "?"}
+\* for the length-3 enumeration of the thorough tier: the characters whose handling is not already a recorded finding
+\* (known_findings.json: $ * ~ | \ ` > } fail in at least one context for names of length <= 2)
+ReducedAlphabet == {"a", " ", "'", "\"", "#", "&", ";", "(", "!", "=", "?", ",", "{", "U"}
 Ctxs == {"unq", "sq", "dq"}
 VARIABLES name, ctx, done
 vars == <<name, ctx, done>>
 Init == name = <<>> /\ ctx \in Ctxs /\ done = FALSE
 Add(c) == ~done /\ Len(name) < MaxLen /\ name' = Append(name, c) /\ UNCHANGED <<ctx, done>>
 Finish == ~done /\ Len(name) > 0 /\ done' = TRUE /\ UNCHANGED <<name, ctx>>
-Next == (\E c \in NameAlphabet : Add(c)) \/ Finish
+Next == (\E c \in Alphabet : Add(c)) \/ Finish
 Spec == Init /\ [][Next]_vars
 Str(s) == FoldLeft(LAMBDA a, c : a \o c, "", s)
 InverseOK == done => RoundTrip(name, ctx, "inverse")
